@@ -52,12 +52,141 @@ def cases(tier, seed):
         out.append({'prog': p, 'fold_bn': False})
         if G.has_bn(p):
             out.append({'prog': p, 'fold_bn': True})
+    for m in HAND:
+        for fold in (False, True):
+            out.append({'kind': 'hand', 'model': m, 'fold_bn': fold})
     for c in out:
         c['tier'] = tier
     return out
 
 
+# ----------------------------------------------------------------------------------------------
+# hand-written networks whose layers are direct attributes with ordinary names (the grammar names every layer '<block>.conv')
+# ----------------------------------------------------------------------------------------------
+class _Tied1d(torch.nn.Module):
+    """stem -> [shared conv + BN] invoked twice -> head; names: stem, shared, norm, head"""
+    shape = (3, 8)
+
+    def __init__(self):
+        super().__init__()
+        nn = torch.nn
+        self.stem = nn.Conv1d(3, 4, 3, padding='same')
+        self.shared = nn.Conv1d(4, 4, 3, padding='same')
+        self.norm = nn.BatchNorm1d(4)
+        self.head = nn.Linear(4 * 8, 2)
+
+    def forward(self, x):
+        x = torch.relu(self.stem(x))
+        x = torch.relu(self.norm(self.shared(x)))
+        x = torch.relu(self.norm(self.shared(x)))
+        return self.head(x.flatten(1))
+
+
+class _Tied2d(torch.nn.Module):
+    """input -> expand (+BN) -> [block_b conv + BN] invoked twice with a skip -> pool -> lin; names: expand, block_b, bn_b, lin"""
+    shape = (3, 4, 4)
+
+    def __init__(self):
+        super().__init__()
+        nn = torch.nn
+        self.expand = nn.Conv2d(3, 4, 1)
+        self.bn_expand = nn.BatchNorm2d(4)
+        self.block_b = nn.Conv2d(4, 4, 3, padding=1)
+        self.bn_b = nn.BatchNorm2d(4)
+        self.pool = nn.AdaptiveAvgPool2d(1)
+        self.lin = nn.Linear(4, 2)
+
+    def forward(self, x):
+        x = torch.relu(self.bn_expand(self.expand(x)))
+        y = torch.relu(self.bn_b(self.block_b(x)))
+        y = torch.relu(self.bn_b(self.block_b(y)) + x)
+        return self.lin(torch.flatten(self.pool(y), 1))
+
+
+HAND = {'tied1d': _Tied1d, 'tied2d': _Tied2d}
+
+
+def _run_hand(case, seed):
+    from plinio.methods import PIT
+    from plinio.methods.pit.nn.features_masker import PITFeaturesMasker, PITFrozenFeaturesMasker
+    res = {'states': 0, 'transitions': 0, 'evals': 0, 'nontrivial': [], 'outcomes': set(), 'violations': []}
+    base_case = {k: v for k, v in case.items() if k != 'only'}
+    cls, fold = HAND[case['model']], case['fold_bn']
+    torch.manual_seed(seed * 13 + 1)
+    model = cls()
+    with torch.no_grad():
+        for m in model.modules():
+            if isinstance(m, (torch.nn.BatchNorm1d, torch.nn.BatchNorm2d)):
+                m.running_mean.normal_(0, 0.3)
+                m.running_var.uniform_(0.5, 1.5)
+                m.weight.uniform_(0.5, 1.5)
+                m.bias.normal_(0, 0.3)
+    model.eval()
+    x = torch.randn((3,) + cls.shape, generator=torch.Generator().manual_seed(seed + 3))
+    ssig = f'hand-{case["model"]}/fold={int(fold)}'
+    try:
+        pit = PIT(model, input_shape=cls.shape, fold_bn=fold)
+    except Exception as e:
+        res.update(states=1, evals=1, outcomes=['conversion-raises'])
+        res['violations'].append({'kind': 'conversion-raises', 'sig': 'conversion-raises/' + ssig, 'msg': f'PIT() raised {type(e).__name__}: {e}', 'case': base_case})
+        return res
+    pit.eval()
+    fms, seen = [], set()
+    for name, layer in D.pit_layers(pit):
+        fm = layer.out_features_masker
+        if id(fm) not in seen and type(fm) is PITFeaturesMasker:
+            seen.add(id(fm))
+            fms.append((name, fm))
+    # complete channel lattice of every free masker (keep-alive channel excluded), the other maskers open
+    labels = [{}]
+    for i, (name, fm) in enumerate(fms):
+        free = [c for c in range(fm.alpha.numel()) if float(fm._keep_alive[c]) == 0]
+        for r in range(1, len(free) + 1):
+            import itertools
+            for off in itertools.combinations(free, r):
+                labels.append({'masker': name, 'pruned': list(off)})
+    only = case.get('only')
+    for label in labels:
+        if only is not None and only != label:
+            continue
+        with torch.no_grad():
+            for name, fm in fms:
+                fm.alpha.fill_(1.0)
+                if label.get('masker') == name:
+                    for c in label['pruned']:
+                        fm.alpha[c] = 0.0
+        res['states'] += 1
+        res['transitions'] += len(label.get('pruned', []))
+        res['evals'] += 1
+        vcase = dict(base_case, only=label)
+        try:
+            with torch.no_grad():
+                y_pit = pit(x)
+                exp = D.export_with_bn(pit)
+                exp.eval()
+                y_exp = exp(x)
+        except Exception as e:
+            res['outcomes'].add('export-or-run-raises')
+            res['violations'].append({'kind': 'export-or-run-raises', 'sig': 'export-or-run-raises/' + ssig,
+                                      'msg': f'{label}: {type(e).__name__}: {str(e)[:300]}', 'case': vcase})
+            continue
+        ok, why = tol.out_close(y_pit, y_exp)
+        if not ok:
+            res['outcomes'].add('output-differs')
+            res['violations'].append({'kind': 'output-differs', 'sig': 'output-differs/' + ssig,
+                                      'msg': f'{label}: PIT.eval()(x) vs export().eval()(x): {why}', 'case': vcase})
+        else:
+            res['outcomes'].add('equal' if label else 'equal-unpruned')
+        if label:
+            res['nontrivial'].append(f'{ssig}/{label}')
+    res['outcomes'] = sorted(res['outcomes'])
+    res['sample'] = {'model': case['model'], 'doc': cls.__doc__, 'fold_bn': fold, 'free_maskers': [n for n, _ in fms], 'configurations': len(labels)}
+    return res
+
+
 def run_case(case, seed):
+    if case.get('kind') == 'hand':
+        return _run_hand(case, seed)
     prog, fold = case['prog'], case['fold_bn']
     tier = case.get('tier', 'quick')
     b = bounds(tier)
